@@ -110,7 +110,7 @@ P["C16"] = {
     "outside": "build / remove / re-build histories, store/load of removed rules (other tiers)",
     "runs": [tierA(3, 2, fDeleted, QT), fetchA(4, fDeleted, QT), tierA(4, 2, fDeleted | fRetract, T)]}
 
-TIERC_H = [["zztier", "harness/zztier"]]
+TIERC_H = [["zztier", "harness/zztier"], ["ast", "harness/ast"]]
 
 
 def tierC(entry, tmpl, extra, tiers, reach, bounds, **kw):
@@ -175,6 +175,35 @@ P["C13"] = {
     "bounds": "Tier B: counted method F.Heavy(F.I) shared by 3 rules in different contexts (b_shared) and all other memo templates; K <= 4 firings; invalidations counted from the fired rules' action lists",
     "outside": "other rule sets; the inductive 'one sweep performs zero calls' step is not built",
     "runs": [tierB("memo", 3, 0, QT, require_reach=["tierB:execute-returned", "tierB:counted-call-ran"]), tierB("memo", 4, 1, T, require_reach=["tierB:execute-returned", "tierB:counted-call-ran"])]}
+def memoStep(setname, state, tiers):
+    sn = {0: "filled", 1: "empty", 2: "alternating-a", 3: "alternating-b"}[state]
+    return {"name": "memo-step-%s-%s" % (setname, sn), "pkgdir": "zztier", "harness": TIERC_H, "entry": "VerifMemoStep", "args": [setname, state], "tiers": tiers,
+            "templates": [t + ".grl" for t in TB_SETS[setname]], "require_reach": ["memo:step-executed", "memo:remembered-expression-checked"], "compare_events": False,
+            "bounds": "inductive memo step on every template of set '%s': arbitrary (symbolic) facts, memo state '%s' consistent with them, ONE arbitrary rule's action list; afterwards every node still marked Evaluated holds the memo-free value (invariant INV, which implies C01/C02 in every later cycle: no run-length bound for these templates)" % (setname, sn)}
+
+
+for pid in ("C01", "C02", "C13"):
+    P[pid]["runs"] += [memoStep("memo", 0, QT), memoStep("memo", 1, T), memoStep("memo", 2, T), memoStep("memo", 3, T)]
+    P[pid]["bounds"] += "; inductive memo step (INV preserved by every rule's action list from an arbitrary fact state and a filled / empty / alternating memo) - removes the run-length bound for the template family"
+    P[pid]["outside"] = P[pid]["outside"].replace("; the inductive memo step of DESIGN §8 is not built", "").replace("; the inductive 'one sweep performs zero calls' step is not built", "")
+
+def loadedRun(entry, setname, extra, tiers, name):
+    return {"name": name, "pkgdir": "zztier", "harness": TIERC_H, "entry": entry, "args": [setname] + extra, "tiers": tiers, "templates": [t + ".grl" for t in TB_SETS[setname]],
+            "replay_attempts": 150, "compare_events": False, "extra_label_prefixes": ["C12:load-succeeds"],
+            "bounds": "%s on the knowledge bases of set '%s' LOADED BACK from their GRB image (store -> load in the executor; the loader rebuilds the working-memory index maps)" % (entry, setname)}
+
+
+P["C02"]["runs"] += [loadedRun("VerifMemoStepLoaded", "memo", [0], T, "memo-step-loaded-filled"), loadedRun("VerifTierBSetLoaded", "memo", [3, 0], T, "tierB-loaded-memo-k3")]
+P["C02"]["bounds"] += "; thorough: the same on knowledge bases loaded back from their GRB image"
+P["C12"]["runs"] += [{"name": "tierc-equivalence-memo", "pkgdir": "zztier", "harness": TIERC_H, "entry": "VerifTierCEquiv", "args": ["memo"], "tiers": QT,
+                      "templates": [t + ".grl" for t in TB_SETS["memo"]], "require_reach": ["tierC:equiv-loaded"], "compare_events": False,
+                      "bounds": "every rule of the 13 templates of set 'memo': instance of the stored vs. of the loaded vs. of the twice-loaded knowledge base on copies of the same symbolic facts (candidate flag and all resulting facts equal)"},
+                     dict(loadedRun("VerifMemoStepLoaded", "memo", [0], T, "memo-step-loaded-filled"), extra_label_prefixes=["C01:", "C02:", "C12:load-succeeds"]),
+                     dict(loadedRun("VerifTierBSetLoaded", "memo", [3, 0], T, "tierB-loaded-memo-k3"), extra_label_prefixes=["C01:", "C02:", "C12:load-succeeds"])]
+P["C12"]["bounds"] += "; behavioural equivalence: every rule of 13 templates evaluated and executed on symbolic facts in instances of the stored, loaded and twice-loaded knowledge base; thorough: bounded runs and the inductive memo step on loaded knowledge bases"
+P["C12"]["outside"] = "rule sets outside the template family; readers that return short reads without being at the end"
+P["C12"]["assumptions"] = TIERC_ASSUME + TIERB_ASSUME
+
 P["C10"]["runs"] += [tierB("control", 3, 0, QT, require_reach=["tierB:self-retract-fired", "tierB:complete-fired"]), tierB("control", 3, 1, T, require_reach=["tierB:self-retract-fired", "tierB:complete-fired"])]
 P["C10"]["assumptions"] = TIERA_ASSUME + TIERB_ASSUME
 P["C10"]["bounds"] += "; Tier B: Retract (self / other / unknown) and Complete in the middle of real action lists (template b_retract) reached through FunctionCall -> GoValueNode.CallFunction -> reflect MethodByName/Call"
